@@ -638,6 +638,75 @@ class UnrollLiteral(ast.NodeTransformer):
         return node
 
 
+class UnrollComp(ast.NodeTransformer):
+    """[f(v) for v in (a, b)]                 ->  [f(a), f(b)]
+       tuple(f(g, t) for g, t in zip((g1, g2), (t1, t2)))  ->  (f(g1, t1), f(g2, t2))
+    (one generator without filter over a literal tuple / list of at most 4 names / constants / attribute chains, or a zip of such)"""
+    def _simple(self, e):
+        while isinstance(e, ast.Attribute):
+            e = e.value
+        return isinstance(e, (ast.Name, ast.Constant))
+
+    def _items(self, it):
+        if isinstance(it, (ast.Tuple, ast.List)) and 1 <= len(it.elts) <= 4 and all(self._simple(x) for x in it.elts):
+            return [[x] for x in it.elts]
+        if isinstance(it, ast.Call) and isinstance(it.func, ast.Name) and it.func.id == 'zip' and not it.keywords and it.args \
+                and all(isinstance(a, (ast.Tuple, ast.List)) and 1 <= len(a.elts) <= 4 and all(self._simple(x) for x in a.elts) for a in it.args) \
+                and len({len(a.elts) for a in it.args}) == 1:
+            return [list(col) for col in zip(*[a.elts for a in it.args])]
+        return None
+
+    def _expand(self, comp):
+        import copy
+        if len(comp.generators) != 1 or comp.generators[0].ifs or comp.generators[0].is_async:
+            return None
+        g = comp.generators[0]
+        rows = self._items(g.iter)
+        if rows is None:
+            return None
+        if isinstance(g.target, ast.Name):
+            names = [g.target.id]
+        elif isinstance(g.target, ast.Tuple) and all(isinstance(x, ast.Name) for x in g.target.elts):
+            names = [x.id for x in g.target.elts]
+        else:
+            return None
+        if any(len(r) != len(names) for r in rows):
+            if len(names) == 1 and all(len(r) > 1 for r in rows):
+                return None
+            return None
+        out = []
+        for r in rows:
+            m = dict(zip(names, r))
+
+            class Rn(ast.NodeTransformer):
+                def visit_Name(self, n):
+                    if n.id in m and isinstance(n.ctx, ast.Load):
+                        return ast.copy_location(copy.deepcopy(m[n.id]), n)
+                    return n
+            out.append(Rn().visit(copy.deepcopy(comp.elt)))
+        return out
+
+    def visit_ListComp(self, node):
+        self.generic_visit(node)
+        ex = self._expand(node)
+        if ex is None:
+            return node
+        return ast.copy_location(ast.List(elts=ex, ctx=ast.Load()), node)
+
+    def visit_Call(self, node):
+        self.generic_visit(node)
+        if isinstance(node.func, ast.Name) and node.func.id in ('tuple', 'list') and len(node.args) == 1 and not node.keywords:
+            a = node.args[0]
+            if isinstance(a, ast.GeneratorExp):
+                ex = self._expand(a)
+                if ex is not None:
+                    new = ast.Tuple(elts=ex, ctx=ast.Load()) if node.func.id == 'tuple' else ast.List(elts=ex, ctx=ast.Load())
+                    return ast.copy_location(new, node)
+            if isinstance(a, ast.List) and node.func.id == 'tuple':
+                return ast.copy_location(ast.Tuple(elts=a.elts, ctx=ast.Load()), node)
+        return node
+
+
 class AppendLoop(ast.NodeTransformer):
     """out = [] ; for x in xs: out.append(f(x))         ->  out = [f(x) for x in xs]
        out = [] ; for x in xs: if c(x): out.append(f(x)) ->  out = [f(x) for x in xs if c(x)]
@@ -688,7 +757,7 @@ class TupleCanon(ast.NodeTransformer):
     def _block(self, stmts, fn):
         out = []
         for s in stmts:
-            if isinstance(s, ast.Assign) and len(s.targets) == 1 and isinstance(s.targets[0], ast.Tuple) and isinstance(s.value, ast.Tuple) \
+            if isinstance(s, ast.Assign) and len(s.targets) == 1 and isinstance(s.targets[0], ast.Tuple) and isinstance(s.value, (ast.Tuple, ast.List)) \
                     and len(s.targets[0].elts) == len(s.value.elts) and all(isinstance(t, ast.Name) for t in s.targets[0].elts) \
                     and not any(isinstance(v, ast.Starred) for v in s.value.elts):
                 tnames = [t.id for t in s.targets[0].elts]
@@ -879,6 +948,7 @@ def normalize_module(tree, modname):
         _drop_dead_helpers(tree, inl)
     IfAssign().visit(tree)         # after inlining: a helper `return a if c else b` is inlined as an expression first
     UnrollLiteral().visit(tree)
+    UnrollComp().visit(tree)
     LoopCanon().visit(tree)
     AppendLoop().visit(tree)
     TupleCanon().visit(tree)
